@@ -23,13 +23,13 @@ EXTENDS Integers, Sequences, FiniteSets
 
 CONSTANTS DoneOnError
 \* cfg = [np, nw, cap, fd, fs] is the configuration of one run (number of pairs, workers, channel capacity, failing
-\* evaluation, failing row request; 0 = none); it never changes (a variable so that one TLC run covers a family of runs)
+\* evaluations as a sequence of indexes, failing row request or 0); it never changes (a variable so that one TLC run covers a family of runs)
 VARIABLES cfg, ppc, nxt, chan, closed, wpc, cur, nd, mux, perr, werr, cells, wgc, mpc, ret
 vars == <<cfg, ppc, nxt, chan, closed, wpc, cur, nd, mux, perr, werr, cells, wgc, mpc, ret>>
 NPairs == cfg.np
 NWorkers == cfg.nw
 Cap == cfg.cap
-FailDist == cfg.fd
+FailDist == {cfg.fd[i] : i \in 1..Len(cfg.fd)}     \* the evaluations (in order of completion) that fail
 FailSeq == cfg.fs
 Workers == 1..NWorkers
 Pairs == 1..NPairs
@@ -61,11 +61,11 @@ dm_w_recv(w, p) == /\ wpc[w] = "idle" /\ chan # <<>> /\ Head(chan) = p
                    /\ chan' = Tail(chan) /\ cur' = [cur EXCEPT ![w] = p] /\ wpc' = [wpc EXCEPT ![w] = "got"]
                    /\ UNCHANGED <<cfg, ppc, nxt, closed, nd, mux, perr, werr, cells, wgc, mpc, ret>>
 \* evaluation succeeded, both cells written (no lock: each pair is handled by one worker)
-dm_w_dist(w) == /\ wpc[w] = "got" /\ nd + 1 # FailDist
+dm_w_dist(w) == /\ wpc[w] = "got" /\ nd + 1 \notin FailDist
                 /\ nd' = nd + 1 /\ cells' = [cells EXCEPT ![cur[w]] = @ + 1] /\ wpc' = [wpc EXCEPT ![w] = "computed"]
                 /\ UNCHANGED <<cfg, ppc, nxt, chan, closed, cur, mux, perr, werr, wgc, mpc, ret>>
 \* evaluation failed: the first error is recorded under the mutex (lock .. unlock is one step: nothing else happens inside)
-dm_w_err(w) == /\ wpc[w] = "got" /\ nd + 1 = FailDist /\ mux = 0
+dm_w_err(w) == /\ wpc[w] = "got" /\ nd + 1 \in FailDist /\ mux = 0
                /\ nd' = nd + 1 /\ werr' = TRUE
                /\ wpc' = [wpc EXCEPT ![w] = IF DoneOnError THEN "idle" ELSE "dead"]
                /\ UNCHANGED <<cfg, ppc, nxt, chan, closed, cur, mux, perr, cells, wgc, mpc, ret>>
@@ -101,7 +101,7 @@ NoRaceOnCells == \A w, v \in Workers : (w # v /\ wpc[w] \in {"got", "computed", 
 MutexOK == mux = 0 \/ wpc[mux] = "locked"
 ErrorReturned == mpc = "done" => /\ (ret = "err") = (perr \/ werr)
                                  /\ (FailSeq \in 1..(NPairs + 1) => ret = "err")
-                                 /\ ((FailSeq = 0 /\ FailDist \in 1..NPairs) => ret = "err")
+                                 /\ ((FailSeq = 0 /\ FailDist \cap (1..NPairs) # {}) => ret = "err")
 Determinate == (mpc = "done" /\ ret = "ok") => \A p \in Pairs : cells[p] = 1
 OneResultPerPair == \A p \in Pairs : cells[p] <= 1
 =============================================================================
